@@ -1071,6 +1071,10 @@ def ctor_cases(tier, rng, k, n):
         for t in range(12):
             yield ("ctor-type", ("type", str(t)), {})
         yield ("ctor-default", ("default1", "-"), {})
+        for c in range(2):
+            for f in range(4):
+                for pr in range(3):
+                    yield ("ctor-bitor", ("bitor", "%d,%d,%d" % (c, f, pr)), {})
         yield ("ctor-hdr", ("hdr1", "50524f585920554e4b4e4f574e0d0a,4,01020304,05060708,1,2"), {})
 
 
@@ -1118,6 +1122,11 @@ class C19(Prop):
                 want = "V1=U V2=N"
             if line != want:
                 return "From<(SocketAddr, SocketAddr)>: expected %s, got %s" % (want, line)
+        elif kind == "bitor":
+            c, fam, pr = (int(x) for x in f)
+            want = "VC=%d CV=%d FP=%d PF=%d FL=%s" % (0x20 | c, 0x20 | c, (fam << 4) | pr, (fam << 4) | pr, ["-", "12", "36", "216"][fam])
+            if line != want:
+                return "BitOr / byte_length of the control-byte enums: expected %s, got %s" % (want, line)
         elif kind == "type":
             codes = [1, 2, 3, 4, 5, 0x20, 0x21, 0x22, 0x23, 0x24, 0x25, 0x30]
             if line != "C=%d" % codes[int(f[0])]:
